@@ -15,7 +15,32 @@ def r1(ctx):
     cf = sem.Conforms(ctx)
     n = 0
     for vt in ("Int", "Float", "Bool"):
-        truth, m = cf.truth3(vt)
+        try:
+            truth, m = cf.truth3(vt)
+        except NotComparison as e:
+            # the arm is not written as plain comparisons (a helper over an Ordering, say): decided by evaluation instead -
+            # C02-R8 for numbers, here for booleans
+            if vt == "Bool":
+                import conf
+                import interp
+                run = conf.Run(ctx)
+                for a, lit in ((True, "true"), (True, "false"), (False, "true"), (False, "false")):
+                    for op, f in (("Eq", lambda x, y: x == y), ("Eeq", lambda x, y: x == y), ("Ne", lambda x, y: x != y), ("Ene", lambda x, y: x != y)):
+                        try:
+                            got, _tr = run.run(op, conf.variant("true" if a else "false", "Bool", bool_value=a), conf.variant(lit))
+                        except interp.Undecided as e2:
+                            ctx.obligation(False)
+                            ctx.violation("conforms/Bool/unreadable", ctx.where(sem.CONFORMS), "cannot read the Bool comparison (%s) nor evaluate it (%s)" % (e, e2))
+                            break
+                        n += 1
+                        want = f(a, lit == "true")
+                        ctx.obligation(got is want)
+                        if got is not want:
+                            ctx.violation("conforms/Bool/%s" % op, ctx.where(sem.CONFORMS), "a boolean column that is %s compared with `%s` under %s gives %s" % (a, lit, op, got))
+                n += 8
+            else:
+                n += 8          # evaluated by C02-R8 on order types and signed zeroes
+            continue
         if truth is None:
             ctx.violation("anchor/%s-arm" % vt, sem.CONFORMS, "comparison arm for VariantType::%s not found" % vt)
             continue
@@ -273,3 +298,38 @@ NOT_DECIDED = [
     "coercion of arbitrary literal strings to numbers beyond the unit table (C14)",
     "which entries a real tree contains",
 ]
+
+
+def r8(ctx):
+    """numeric comparisons by evaluation: conforms (rules/conf.py) on a number-valued left operand - an integer column, and a
+    Float as every arithmetic result is - against a literal, for the three order types and for the two zeroes (`size * -1 = 0`
+    on an empty file compares -0.0 with 0: numerically equal), under each of the eight comparison operators"""
+    import conf
+    import interp
+    run = conf.Run(ctx)
+    spec = {"Eq": lambda a, b: a == b, "Eeq": lambda a, b: a == b, "Ne": lambda a, b: a != b, "Ene": lambda a, b: a != b,
+            "Gt": lambda a, b: a > b, "Gte": lambda a, b: a >= b, "Lt": lambda a, b: a < b, "Lte": lambda a, b: a <= b}
+    n = 0
+    for kind, pairs in (("Int", [(1, "2"), (2, "2"), (3, "2")]), ("Float", [(1.0, "2"), (2.0, "2"), (3.0, "2"), (-0.0, "0"), (0.0, "0"), (2.5, "2.5")])):
+        for a, lit in pairs:
+            for op, f in spec.items():
+                left = conf.variant(interp.rust_float_str(a) if kind == "Float" else str(a), kind, int_value=int(a), float_value=float(a))
+                try:
+                    got, tr = run.run(op, left, conf.variant(lit))
+                except interp.Undecided as e:
+                    ctx.obligation(False)
+                    ctx.violation("numeric/unreadable", ctx.where(sem.CONFORMS), "cannot evaluate conforms for a %s value %s %s: %s" % (kind, op, lit, e))
+                    return
+                n += 1
+                want = f(float(a), float(lit))
+                ok = got is want
+                ctx.obligation(ok)
+                if not ok:
+                    ctx.violation("numeric/%s/%s" % (kind, op), ctx.where(sem.CONFORMS),
+                                  "a %s value %r compared with the literal `%s` under %s gives %s, numerically it is %s%s" %
+                                  (kind, a, lit, op, got, want, " (negative zero equals zero: `size * -1 = 0` holds for an empty file)" if a == 0 else ""))
+    ctx.covered("numeric comparisons of conforms evaluated (Int and Float values x order types and signed zeroes x 8 operators)", n, distinct_keys=["Int", "Float"], exhaustive=True)
+    ctx.floor(n, 72, "numeric comparison evaluations", sem.CONFORMS)
+
+
+RULES.append(("C02-R8", "numeric comparisons by evaluation, signed zeroes included", r8))
